@@ -22,6 +22,8 @@ pub enum FsOp {
     ResRegs(Vec<U>),
     /// `FlatStack::reserve_items` for the given values (by reference)
     ResItems(Vec<U>),
+    /// a scratch stack holding the given values is overwritten by `clone_from(&stack)` and replaces the stack
+    CloneFrom(Vec<U>),
     /// serde_json round trip of the whole FlatStack; continue with the deserialised stack
     Serde,
     Observe,
@@ -45,6 +47,7 @@ pub fn parse_fs_op(s: &str) -> Result<FsOp, String> {
         ["mergecap", n] => FsOp::MergeCap(usize::from_str_radix(n, 16).map_err(|e| e.to_string())?),
         ["resregs", l] => FsOp::ResRegs(list(l)?),
         ["resitems", l] => FsOp::ResItems(list(l)?),
+        ["clonefrom", l] => FsOp::CloneFrom(list(l)?),
         ["serde"] => FsOp::Serde,
         ["observe"] => FsOp::Observe,
         _ => return Err(format!("bad fs op {s}")),
@@ -71,9 +74,16 @@ where
 }
 
 pub type FsSerde<R, S> = Option<fn(&FlatStack<R, S>) -> (FlatStack<R, S>, U)>;
-pub type FsClone<R, S> = Option<fn(&FlatStack<R, S>) -> FlatStack<R, S>>;
-pub fn fs_clone<R: Region + Clone, S: Clone>(fs: &FlatStack<R, S>) -> FlatStack<R, S> {
-    fs.clone()
+pub type FsClone<R, S> = Option<fn(&FlatStack<R, S>, Option<FlatStack<R, S>>) -> FlatStack<R, S>>;
+/// `clone()`, or with a destination `clone_from` into it
+pub fn fs_clone<R: Region + Clone, S: Clone>(fs: &FlatStack<R, S>, dst: Option<FlatStack<R, S>>) -> FlatStack<R, S> {
+    match dst {
+        None => fs.clone(),
+        Some(mut d) => {
+            d.clone_from(fs);
+            d
+        }
+    }
 }
 
 pub fn run_fs<R, S>(ops: &[FsOp], serde: FsSerde<R, S>, clone: FsClone<R, S>) -> Vec<U>
@@ -139,7 +149,23 @@ where
             },
             FsOp::Clone => match clone {
                 None => stop!(ILL),
-                Some(c) => match caught(|| c(&fs)) {
+                Some(c) => match caught(|| c(&fs, None)) {
+                    Some(f) => {
+                        fs = f;
+                        out.push(U::None)
+                    }
+                    None => stop!(PANIC),
+                },
+            },
+            FsOp::CloneFrom(us) => match (clone, us.iter().map(R::of_u).collect::<Option<Vec<_>>>()) {
+                (None, _) | (_, None) => stop!(ILL),
+                (Some(c), Some(vs)) => match caught(|| {
+                    let mut d = FlatStack::<R, S>::default();
+                    for v in vs.iter() {
+                        d.copy(v);
+                    }
+                    c(&fs, Some(d))
+                }) {
                     Some(f) => {
                         fs = f;
                         out.push(U::None)
